@@ -38,6 +38,10 @@ def systematic():
     for (a, b) in (((2, 3), (4, 6)), ((0, 2), (0, 4)), ((1, 0), (3, 0)), ((0, 0), (2, 2))):
         out.append(collide_root(arr(*a), arr(*b), key="tags"))
         out.append(collide_root(arr(*b), arr(*a), key="tags", required=True))
+    # one array property constrained by two branches of a composite (the limits of both apply)
+    for a, b in (({"minItems": 2}, {"maxItems": 4}), ({"maxItems": 3}, {"minItems": 1})):      # (both branches setting one keyword: finding C11-first-wins-scalar)
+        br = lambda lim: {"type": "object", "properties": {"tags": dict({"type": "array", "items": {"type": "string"}}, **lim)}}      # noqa: E731
+        out.append({"type": "object", "properties": {"combo": {"allOf": [br(a), br(b)]}}, "required": ["combo"]})
     return out
 
 
@@ -48,7 +52,7 @@ def run(ctx):
     ctx.proof_step(PROPS_FILE)
     sysm = systematic()
     if ctx.tier == "quick":
-        sysm = sysm[::2] + sysm[-8:]
+        sysm = sysm[::2] + sysm[-10:]
     from vlib.pairwise import pairwise
     sysm = sysm + [r for _, r in pairwise(types=["array"])]
     n = 20 if ctx.tier == "quick" else 300
